@@ -163,7 +163,7 @@ def _form(sql):
     return " ".join(words)
 
 
-PROBE_TAGS = ("nested-setop-paren", "lateral-subquery", "join-on-subquery", "where-quantified-subquery", "where-expression-subquery", "update-merge-subquery",
+PROBE_TAGS = ("teradata-update-from", "nested-setop-paren", "lateral-subquery", "join-on-subquery", "where-quantified-subquery", "where-expression-subquery", "update-merge-subquery",
               "order-by-subquery")
 
 
@@ -558,6 +558,8 @@ def blind_position_probes():
     add("update-merge-subquery", "postgres", "UPDATE tgt SET (c1, c2) = (SELECT c1, c2 FROM ta WHERE ta.k = tgt.k)", [D + "ta"], t, [])
     add("update-merge-subquery", "ansi", "MERGE INTO tgt USING ta ON tgt.k = ta.k AND ta.k IN (SELECT k FROM tb) WHEN MATCHED THEN UPDATE SET c1 = ta.c1", [D + "ta", D + "tb"], t, [D + "ta"])
     add("update-merge-subquery", "ansi", "MERGE INTO tgt USING ta ON tgt.k = ta.k WHEN MATCHED THEN UPDATE SET c1 = (SELECT max(c1) FROM tb)", [D + "ta", D + "tb"], t, [D + "ta"])
+    add("teradata-update-from", "teradata", "UPDATE tgt FROM ta SET c1 = ta.c1 WHERE tgt.k = ta.k", [D + "ta"], t, [])
+    add("teradata-update-from", "teradata", "UPDATE tgt FROM ta, s1.tb SET c1 = ta.c1, c2 = s1.tb.c2 WHERE tgt.k = ta.k", [D + "ta", "s1.tb"], t, [])
     add("order-by-subquery", "ansi", "INSERT INTO tgt SELECT c1 FROM ta ORDER BY (SELECT max(c1) FROM tb)", [D + "ta", D + "tb"], t, [D + "ta"])
     # positions of the same families that ARE seen (controls: they must stay exact)
     add("control", "ansi", "INSERT INTO tgt SELECT c1 FROM ta UNION ALL (SELECT c1 FROM tb)", [D + "ta", D + "tb"], t, [D + "ta", D + "tb"])
